@@ -372,6 +372,7 @@ def json_exception_cell(cell):
             live.create_checkpoint(str(ref / "F"))
         new = components(C.restore(ref / "F", cfg))
         old = components(C.restore(P, cfg))
+        truth = components(live)
         count = [0]
         sys.settrace(_trace_factory("json_pandas_checkpointing.py", lambda fr: count.__setitem__(0, count[0] + 1)))
         try:
@@ -415,7 +416,10 @@ def json_exception_cell(cell):
                 try:
                     with quiet():
                         live.create_checkpoint(str(w / "F"))
-                    out2 = classify(components(C.restore(w / "F", cfg)), old, new)
+                    got2 = components(C.restore(w / "F", cfg))
+                    out2 = classify(got2, old, new)
+                    if out2 != "new" and all(got2[c_] == truth[c_] for c_ in COMPONENTS):
+                        out2 = "new"   # exactly the state of the live object (an implementation that rewrites a stale series file in full is right, too)
                 except Exception as e2:  # noqa: BLE001
                     out2 = f"error:{type(e2).__name__}"
                 res["evaluations"] += 1
